@@ -26,13 +26,13 @@ Open Scope N_scope.
 
 (** * File content: members in file order *)
 Inductive jv :=
-| JLeaf (id : N) (pieces : list str)
+| JLeaf (id : N) (pieces : list str) (refs : list (list str))   (* refs: the key paths its `$t(..)` foreign keys name *)
 | JNull                                  (* `null` = ParsedValue::Default *)
 | JObj (ms : list (str * jv)).           (* members in file order *)
 
 (** * Sorted key maps *)
 Inductive tree :=
-| TLeaf (id : N) (pieces : list str)
+| TLeaf (id : N) (pieces : list str) (refs : list (list str))
 | TNull
 | TSub (m : list (str * tree)).          (* BTreeMap<Key, ParsedValue>: ascending by key name *)
 Definition smap := list (str * tree).
@@ -51,7 +51,7 @@ Fixpoint insert_all (l : list (str * option tree)) (acc : smap) : option smap :=
 
 Fixpoint build_val (v : jv) : option tree :=
   match v with
-  | JLeaf id ps => Some (TLeaf id ps)
+  | JLeaf id ps rs => Some (TLeaf id ps rs)
   | JNull => Some TNull
   | JObj ms =>
       match insert_all (map (fun kv => (key_of (fst kv), build_val (snd kv))) ms) [] with
@@ -71,7 +71,7 @@ Fixpoint insert_all_old (l : list (str * option tree)) (acc : smap) : option sma
   end.
 Fixpoint build_val_old (v : jv) : option tree :=
   match v with
-  | JLeaf id ps => Some (TLeaf id ps)
+  | JLeaf id ps rs => Some (TLeaf id ps rs)
   | JNull => Some TNull
   | JObj ms =>
       match insert_all_old (map (fun kv => (key_of (fst kv), build_val_old (snd kv))) ms) [] with
@@ -90,7 +90,12 @@ Definition push_all (ps : list str) (tbl : list str) : list str :=
 
 Definition path := list str.
 Inductive warning := WMissing (li : N) (p : path) | WSurplus (li : N) (p : path).
-Inductive err := EDuplicateKey | EExplicitDefaultInDefault | ESubKeyMissmatch.
+Inductive err :=
+| EDuplicateKey | EExplicitDefaultInDefault | ESubKeyMissmatch
+| ERecursiveFK (li : N) (p : path)                 (* RecursiveForeignKey { locale, key_path } *)
+| EMissingFK (li : N) (p target : path)            (* MissingForeignKey { foreign_key, locale, key_path } *)
+| EInvalidFK (li : N) (p target : path)            (* InvalidForeignKey: the target is a subkeys group *)
+| EUnmodelledFK.                                   (* a foreign key to an explicit default (inherits chain): outside this model *)
 
 (** what the harness lists for one top locale: every key path of its (merged) map in map order with the value's identity
     (0 = `Default`), nested levels inline *)
@@ -101,7 +106,7 @@ Record acc := mk_acc { a_tbl : list str; a_warn : list warning; a_list : listing
 (** Locale::make_builder_keys on the default locale *)
 Fixpoint index_default (p : path) (t : tree) (a : acc) : acc + err :=
   match t with
-  | TLeaf id ps => inl (mk_acc (push_all ps (a_tbl a)) (a_warn a) (a_list a ++ [(p, id)]))
+  | TLeaf id ps _ => inl (mk_acc (push_all ps (a_tbl a)) (a_warn a) (a_list a ++ [(p, id)]))
   | TNull => inr EExplicitDefaultInDefault
   | TSub m =>
       (fix go (m : smap) (a : acc) : acc + err :=
@@ -129,7 +134,7 @@ Fixpoint list_defaults (p : path) (d : tree) (l : listing) : listing :=
 (** a sub-locale that is not merged (its key is absent from the default locale) stays in place, untouched *)
 Fixpoint list_raw (p : path) (t : tree) (l : listing) : listing :=
   match t with
-  | TLeaf id _ => l ++ [(p, id)]
+  | TLeaf id _ _ => l ++ [(p, id)]
   | TNull => l ++ [(p, 0)]
   | TSub m =>
       (fix go (m : smap) (l : listing) : listing :=
@@ -183,7 +188,7 @@ Fixpoint merge_level (fuel : nat) (li : N) (p : path) (d own : smap) (a : acc) :
                 | TSub dm => merge_level f li pk dm om a
                 | _ => inr ESubKeyMissmatch
                 end
-            | Some (TLeaf _ ps) =>
+            | Some (TLeaf _ ps _) =>
                 match dv with
                 | TSub _ => inr ESubKeyMissmatch
                 | _ => inl (mk_acc (push_all ps (a_tbl a)) (a_warn a) (a_list a))
@@ -261,17 +266,120 @@ Fixpoint build_all (files : list (list (str * jv))) : option (list smap) :=
               end
   end.
 
-(** the whole model: the files of one unit (member lists in file order, default locale first) to the observables *)
-Definition run_unit (files : list (list (str * jv))) : out + err :=
-  match build_all files with
-  | None => inr EDuplicateKey
-  | Some maps => run_sorted maps
+(** * Foreign keys: which key an error names.
+    `ForeignKeysPaths` is a `BTreeSet<(Key, KeyPath)>`: every value holding a `$t(..)` registers (top locale, its key path)
+    while the files are read; a SET does not remember the registration order, so the registered set is taken here from the
+    sorted maps.  `resolve_foreign_keys` walks that set in ascending (locale NAME, key path) order and resolves each value
+    depth first: a value that is entered again while one of its own foreign keys is being resolved (the `RefCell` is borrowed)
+    is reported as RecursiveForeignKey at THAT key; a target that does not exist / is a subkeys group is reported at the
+    referring key.  The first error ends the run.  Arguments, explicit-default targets and `inherits` are not modelled. *)
+Definition path_eqb (a b : path) : bool :=
+  (fix eq (x y : list str) := match x, y with
+                              | [], [] => true
+                              | s :: r, t :: u => str_eqb s t && eq r u
+                              | _, _ => false
+                              end) a b.
+Fixpoint path_ltb (a b : path) : bool :=          (* Vec<Key> ordering: lexicographic, a proper prefix is smaller *)
+  match a, b with
+  | _, [] => false
+  | [], _ :: _ => true
+  | x :: xs, y :: ys => if str_eqb x y then path_ltb xs ys else str_ltb x y
   end.
+Definition path_mem (p : path) (l : list path) : bool := existsb (path_eqb p) l.
+
+(** Locale::get_value_at *)
+Fixpoint lookup_path (p : path) (m : smap) : option tree :=
+  match p with
+  | [] => None
+  | [k] => lookup k m
+  | k :: r => match lookup k m with Some (TSub m') => lookup_path r m' | _ => None end
+  end.
+
+Fixpoint resolve (fuel : nat) (li : N) (m : smap) (stack : list path) (p : path) : option err :=
+  match fuel with
+  | O => Some EUnmodelledFK
+  | S f =>
+      if path_mem p stack then Some (ERecursiveFK li p)
+      else match lookup_path p m with
+           | Some (TLeaf _ _ refs) =>
+               (fix go (rs : list path) : option err :=
+                  match rs with
+                  | [] => None
+                  | r :: rest =>
+                      match lookup_path r m with
+                      | None => Some (EMissingFK li p r)
+                      | Some TNull => Some EUnmodelledFK
+                      | Some (TSub _) => Some (EInvalidFK li p r)
+                      | Some (TLeaf _ _ _) =>
+                          match resolve f li m (p :: stack) r with
+                          | Some e => Some e
+                          | None => go rest
+                          end
+                      end
+                  end) refs
+           | _ => None
+           end
+  end.
+
+(** key paths of the values holding a foreign key, in map order *)
+Fixpoint fk_paths (p : path) (t : tree) (acc : list path) : list path :=
+  match t with
+  | TLeaf _ _ (_ :: _) => acc ++ [p]
+  | TSub m =>
+      (fix go (m : smap) (acc : list path) : list path :=
+         match m with
+         | [] => acc
+         | (k, v) :: r => go r (fk_paths (p ++ [k]) v acc)
+         end) m acc
+  | _ => acc
+  end.
+
+Definition reg := (str * N * path)%type.           (* locale name, locale index, key path *)
+Definition reg_ltb (a b : reg) : bool :=
+  let '(na, _, pa) := a in let '(nb, _, pb) := b in
+  if str_eqb na nb then path_ltb pa pb else str_ltb na nb.
+Fixpoint reg_insert (x : reg) (l : list reg) : list reg :=
+  match l with
+  | [] => [x]
+  | y :: r => if reg_ltb x y then x :: l else y :: reg_insert x r
+  end.
+Fixpoint registered (names : list str) (li : N) (maps : list smap) : list reg :=
+  match maps with
+  | [] => []
+  | m :: r => fold_right reg_insert (registered (tl names) (li + 1) r)
+                         (map (fun p => (hd [] names, li, p)) (fk_paths [] (TSub m) []))
+  end.
+
+Definition resolve_all (names : list str) (maps : list smap) : option err :=
+  let regs := registered names 0 maps in
+  (fix go (l : list reg) : option err :=
+     match l with
+     | [] => None
+     | (_, li, p) :: r =>
+         match resolve (S (S (length regs))) li (nth (N.to_nat li) maps []) [] p with
+         | Some e => Some e
+         | None => go r
+         end
+     end) regs.
+
+(** the whole model: the files of one unit (member lists in file order, default locale first; [names]: the locales' names)
+    to the observables.  Order of the stages as in `parse_locales`: reading the files (duplicate keys), foreign keys,
+    then the default locale and the merge of the others. *)
+Definition from_sorted (names : list str) (o : option (list smap)) : out + err :=
+  match o with
+  | None => inr EDuplicateKey
+  | Some maps => match resolve_all names maps with
+                 | Some e => inr e
+                 | None => run_sorted maps
+                 end
+  end.
+Definition run_unit (names : list str) (files : list (list (str * jv))) : out + err :=
+  from_sorted names (build_all files).
 
 (** * "The same content in another key order": members permuted at every nesting level *)
 Fixpoint jv_eqb (a b : jv) {struct a} : bool :=
   match a, b with
-  | JLeaf i ps, JLeaf j qs => (i =? j) && (fix eq (x y : list str) := match x, y with
+  | JLeaf i ps _, JLeaf j qs _ => (i =? j) && (fix eq (x y : list str) := match x, y with
                                                                        | [], [] => true
                                                                        | s :: r, t :: u => str_eqb s t && eq r u
                                                                        | _, _ => false
